@@ -121,6 +121,8 @@ func runC06(c *eng.Ctx) {
 						v := e.fields[side]
 						ok, why := nonEmptyOnPath(hp.path, v)
 						c.Check("R3", key+"/"+side, e.store.Pos(), ok, "the conflict's "+side+" list is provably non-empty on this path", why)
+						fresh, fwhy := c06FreshList(v, 0)
+						c.Check("R3", key+"/"+side+"/own-storage", e.store.Pos(), fresh, "the list stored in a conflict is this conflict's own (a literal or the result of a package-level function), not storage reachable from the reconciler that a later path could overwrite", fwhy)
 					}
 				case "alphaChanges", "betaChanges", "ancestorChanges":
 					p := e.fields["Path"]
@@ -202,4 +204,54 @@ func c06PrefixRule(c *eng.Ctx, rule string, rec *ssa.Function) {
 		}
 		c.Check(rule, "prefix-when-any-contents", call.Pos(), all, "the child prefix is computed when ancestor, alpha or beta has contents", fmt.Sprintf("tests=%v missing=%v", keysOf(tests), missing))
 	}
+}
+
+// c06FreshList: v is a slice that no other conflict or later path can alias:
+// a slice literal, the result of a package-level function of package core (diff,
+// extractNonDeletionChanges — they build and return their own slice), or a φ
+// of such values. A method of the reconciler, a field load or a parameter may
+// hand out shared storage.
+func c06FreshList(v ssa.Value, depth int) (bool, string) {
+	if v == nil {
+		return false, "list not set"
+	}
+	if depth > 4 {
+		return false, "too deep"
+	}
+	switch x := eng.Unwrap(v).(type) {
+	case *ssa.Slice:
+		if _, ok := x.X.(*ssa.Alloc); ok {
+			return true, ""
+		}
+		return c06FreshList(x.X, depth+1)
+	case *ssa.Call:
+		callee := x.Call.StaticCallee()
+		if callee != nil && callee.Signature.Recv() == nil && eng.FuncPkgRel(callee) == corePkg {
+			// the function must not return one of its parameters or a global
+			for _, r := range eng.Returns(callee) {
+				for _, rv := range eng.RetResults(r) {
+					if _, isParam := eng.Unwrap(rv).(*ssa.Parameter); isParam {
+						return false, eng.FuncName(callee) + " returns a parameter"
+					}
+				}
+			}
+			return true, ""
+		}
+		if eng.CalleeName(x) == "builtin:append" {
+			return c06FreshList(x.Call.Args[0], depth+1)
+		}
+		return false, "result of " + eng.CalleeName(x)
+	case *ssa.Phi:
+		for _, e := range x.Edges {
+			if ok, why := c06FreshList(e, depth+1); !ok {
+				return false, why
+			}
+		}
+		return true, ""
+	case *ssa.Const:
+		return true, ""
+	case *ssa.MakeSlice:
+		return true, ""
+	}
+	return false, eng.Render(v)
 }
